@@ -43,7 +43,7 @@ CHECKS = {
         level="model_checking", engine="seq",
         technique="total enumeration of operation kind x source database x mapping shape x entry order through the real ChannelWriter against a reference mapping function",
         text="Every operation kind (18 op messages, 4 API events, 5 DML kinds, the 3 readiness probes they trigger) is pushed through the real ChannelWriter for every source database, mapping shape, insertion order of mapping entries and downstream answer; every call recorded at the fake DataHandler is compared with the reference mapping (routing database, request db/collection fields) and the writer's bookkeeping keys with source-name keys.",
-        note="Finite input space enumerated completely. sync.Map iteration order is random and outside the harness' control: multi-entry mappings are repeated 24x (200x thorough) under every insertion order and all repetitions must agree. RBAC entity fields are C20's business. Two parts go below the DataHandler interface with the real SDK client against an in-process gRPC Milvus: 'handler' (23 operation kinds x 4 routing databases: dbname header and names of every RPC on the wire) and 'targetcalls' (collection / partition lookups of the real TargetClient under plain and chained mapping tables: the mapping is applied exactly once).",
+        note="Finite input space enumerated completely. sync.Map iteration order is random and outside the harness' control: multi-entry mappings are repeated 24x (200x thorough) under every insertion order and all repetitions must agree. RBAC entity fields are C20's business. The histories part interleaves operations with UpdateNameMappings calls on ONE writer (every history of <= 4 steps over 12 letters; the table in force is the table at the time of the operation). Two parts go below the DataHandler interface with the real SDK client against an in-process gRPC Milvus: 'handler' (23 operation kinds x 4 routing databases: dbname header and names of every RPC on the wire) and 'targetcalls' (collection / partition lookups of the real TargetClient under plain and chained mapping tables: the mapping is applied exactly once).",
         parts=[part("names", "core", "writer", "TestVerifC09Names", shards=(8, 16), budget=(150, 900)),
                part("histories", "core", "writer", "TestVerifC09Histories", shards=(8, 16), budget=(150, 900)),
                part("target", "core", "reader", "TestVerifC09Target"),
@@ -53,7 +53,7 @@ CHECKS = {
     "C20": dict(
         level="model_checking", engine="seq",
         technique="total enumeration of per-kind field-domain products and malformed packs through the real ChannelWriter, deep comparison with an independent reference builder",
-        text="For every supported operation message kind and API event the product of small field domains is pushed through the real ChannelWriter; the one request recorded at the fake DataHandler is deep-compared with an independently built expectation (same identity fields, dropped list members removed, schema/shards/consistency/properties for create collection, replication flag, source timestamp); malformed packs must be rejected with no downstream call.",
+        text="For every supported operation message kind and API event the product of small field domains is pushed through the real ChannelWriter; the one request recorded at the fake DataHandler is deep-compared with an independently built expectation (same identity fields, dropped list members removed, schema/shards/consistency/properties for create collection, replication flag, source timestamp); malformed packs must be rejected with no downstream call. Every operation case also runs with a source request that already carries a replicate info (empty, or stamped by an earlier hop of a replication chain).",
         note="Finite alphabet enumerated completely (about 3k cases); field contents outside the alphabets are not covered. Event timestamps produced by the reader (create time / barrier time) are checked in the C04 pipeline harness. The handler part checks the wire request of the real MilvusDataHandler + SDK client (identity fields, exactly one mutating RPC, replication mark and source timestamp); the kinds for which the pinned SDK cannot carry the mark are recorded known findings.",
         parts=[part("requests", "core", "writer", "TestVerifC20Requests", shards=(4, 8), budget=(150, 900)),
                part("handler", "core", "writer", "TestVerifC20Handler", shards=(4, 8), budget=(150, 600))],
@@ -62,7 +62,7 @@ CHECKS = {
         level="model_checking", engine="seq+sched",
         technique="total enumeration of pack shapes x configurations through the real HandleReplicateMessage; bytes decoded with Milvus' own decoder and compared with the pack",
         text="Every pack of up to 3 (4 thorough) messages over the six message kinds, for every replicate-id / name-mapping / downstream-answer configuration, is sent through the real ChannelWriter and replicate message manager; the serialized messages captured at the fake DataHandler are decoded exactly as the Milvus proxy does (MsgHeader -> type -> ProtoUnmarshalDispatcher) and compared field by field with a pristine copy of the pack, together with the call envelope, the returned checkpoints and the error.",
-        note="Field values come from builders (2 rows, int64 pks, one partition name); concurrent calls on different channels are explored by the sched part. The fake answers with a synthetic target position. The handler part drives the real MilvusDataHandler + SDK client against an in-process gRPC Milvus (loopback): downstream answer {ok, error status, transport error, unreachable} x pooled client {cached, evicted}; envelope equality on the wire, position handed back, an error is never swallowed.",
+        note="Field values come from builders (2 rows, int64 pks, one partition name); concurrent calls on different channels are explored by the sched part (each caller gets its own answer; the bytes of every downstream call are decoded when the call is made and again just before it is answered). The fake answers with a synthetic target position. The handler part drives the real MilvusDataHandler + SDK client against an in-process gRPC Milvus (loopback): downstream answer {ok, error status, transport error, unreachable} x pooled client {cached, evicted}; envelope equality on the wire, position handed back, an error is never swallowed.",
         parts=[part("bytes", "core", "writer", "TestVerifC07Bytes", shards=(8, 16), budget=(150, 900)),
                part("sched", "core", "writer", "TestVerifC07Sched", shards=(4, 8), budget=(120, 600), gomaxprocs=1),
                part("handler", "core", "writer", "TestVerifC07Handler", shards=(8, 8), budget=(150, 600))],
@@ -79,7 +79,7 @@ CHECKS = {
         level="model_checking", engine="seq",
         technique="explicit-state BFS over catalog-generating histories; each reachable catalog is read by the real EtcdOp.GetAllDroppedObj (over fakeetcd) and compared with the model's expectation",
         text="Every source catalog reachable by a history of legal root-coord operations up to the depth bound (two databases, repeated names across incarnations, all object states, tombstones) is written to the in-memory etcd and read by the real GetAllDroppedObj, with and without a Milvus downstream; entry set and horizons are compared with an expectation computed from the catalog model.",
-        note="Catalogs come from histories so impossible catalogs cannot raise alarms; depth 7 (7 thorough), one collection name per database (two thorough), one partition name. fakeetcd models the etcd Get/prefix semantics used here; key layout and tombstone encoding copied from the reader's own constants.",
+        note="Catalogs come from histories so impossible catalogs cannot raise alarms; depth 7 (7 thorough), one collection name per database (two thorough) plus a second name that exists to be renamed onto the first (collections without user partitions), one partition name. fakeetcd models the etcd Get/prefix semantics used here; key layout and tombstone encoding copied from the reader's own constants.",
         parts=[part("snapshot", "core", "reader", "TestVerifC15Snapshot", shards=(8, 16), budget=(150, 900))],
     ),
     "C01": dict(
@@ -109,7 +109,7 @@ CHECKS = {
         level="exploration", engine="sched",
         technique="stateless DFS over goroutine schedules (deviation-bounded) of the real channel manager and its barriers for every drop / stop / restart scenario",
         text="Drop-collection and drop-partition scripts over 1-3 shards, partition registration racing stream registration, stop with and without a half-completed drop, and restarts with objects already dropped upstream are executed on the real channel manager under every schedule within the deviation bound; the drop requests observed on the event channel are counted, attributed and placed in time against the per-shard delivery progress.",
-        note="Bounds: <= 2 shards (3 thorough), <= 2 deviations (3 thorough; 1 for the heaviest scenarios). After a drop the scripts address the dropped object no more (a source never does).",
+        note="Bounds: <= 2 shards (3 thorough), <= 2 deviations (3 thorough; 1 for the heaviest scenarios). After a drop the scripts address the dropped object no more (a source never does). Pause and resume on the same channel manager after a replayed drop (partition / collection; downstream has applied the request or still lists the object) must not produce a second request.",
         parts=[part("drop", "core", "reader", "TestVerifC04Drop", shards=(12, 16), budget=(150, 900), gomaxprocs=1),
                part("race", "core", "reader", "TestVerifC04Drop", shards=(4, 8), budget=(60, 300), race=True)],
     ),
@@ -117,7 +117,7 @@ CHECKS = {
         level="exploration", engine="sched",
         technique="stateless DFS over goroutine schedules (deviation-bounded) with catalog writes placed at every step of the real reader start-up over an in-memory etcd",
         text="The real CollectionReader.StartRead and EtcdOp (watchers, event pool) run over fakeetcd; for every scenario the catalog writes are placed at every decision point among the reader's etcd calls and all schedules within the deviation bound are executed; at quiescence the recorded StartReadCollection / AddPartition / AddDropped* calls are compared with the catalog model.",
-        note="Bounds: <= 4 catalog writes per scenario, <= 2 further deviations (3 thorough), two databases. Duplicate notifications at the real channel manager (collection / partition announced twice, concurrently and one after the other) are the 'duplicates' part. fakeetcd models Get/prefix/Watch-with-prev-kv semantics; thorough conformance against embedded etcd is a separate part.",
+        note="Bounds: <= 4 catalog writes per scenario, <= 2 further deviations (3 thorough), two databases. The listing part runs StartRead on every catalog reachable by a history of <= 8 (10) catalog operations (any number of incarnations of a name, in any state, with partitions under old and new ones). Duplicate notifications at the real channel manager (collection / partition announced twice, concurrently and one after the other) are the 'duplicates' part. fakeetcd models Get/prefix/Watch-with-prev-kv semantics; thorough conformance against embedded etcd is a separate part.",
         parts=[part("start", "core", "reader", "TestVerifC13Start", shards=(12, 16), budget=(150, 900), gomaxprocs=1),
                part("lookup", "core", "reader", "TestVerifC13Lookup", shards=(4, 8), budget=(120, 600)),
                part("listing", "core", "reader", "TestVerifC13Listing", shards=(12, 16), budget=(150, 900), gomaxprocs=1),
@@ -150,7 +150,7 @@ CHECKS = {
         level="model_checking", engine="seq",
         technique="explicit-state BFS over API call histories with store-fault indexes on the real MetaCDC, invariant + reference state machine in every state",
         text="Every history of create/pause/resume/delete/get/list/restart over two tasks (one or two targets, auto-start on/off), optionally with the metadata store failing at the n-th call of an operation, is replayed on a fresh real MetaCDC; in every reached state the API, the persisted record, the in-memory table and the per-state gauges must agree, only legal transitions may succeed, and reference count, quit functions, replication entity, catalog subscriptions, source stream registrations and store records must match the set of running / existing tasks.",
-        note="Bounded: depth 5 (6 thorough), fault at store call 1..3 (1..6), two tasks, ids given by the client or assigned by the server; a failure report of the reader (error event) is one of the operations. Light replication entity (recording channel manager) in the lifecycle part; the fullstack part re-judges the C05/C06 full-stack scenarios (real readers, channel manager, writer) for agreement of the four views of the state at every quiescent point. The busy-background-work clause was exercised by the stall watchdog of the pipeline harness (barrier spin, fixed).",
+        note="Bounded: depth 5 (6 thorough), fault at store call 1..3 (1..6), two tasks, ids given by the client or assigned by the server; a failure report of the reader (error event) is one of the operations, and so is a restart whose reload meets a store failure at its n-th call (an internal pause that the store refuses to record is a recorded finding). Light replication entity (recording channel manager) in the lifecycle part; the fullstack part re-judges the C05/C06 full-stack scenarios (real readers, channel manager, writer) for agreement of the four views of the state at every quiescent point. The busy-background-work clause was exercised by the stall watchdog of the pipeline harness (barrier spin, fixed).",
         parts=[part("lifecycle", "server", ".", "TestVerifC11Lifecycle", shards=(16, 16), budget=(150, 1200)),
                part("fullstack", "server", ".", "TestVerifC11Fullstack", shards=(16, 16), budget=(150, 1200), gomaxprocs=1)],
     ),
@@ -174,7 +174,7 @@ CHECKS = {
         level="fault_enumeration", engine="sched",
         technique="stateless DFS over goroutine schedules x failure positions (deviation-bounded) of the real full stack inside synctest bubbles",
         text="For every failure class (downstream rejects a write once or repeatedly, store rejects a checkpoint, two failures, downstream rejects a drop, message for a partition unknown downstream) and task layout (1 task, 2 tasks on one target, 2 tasks on two targets) the failure is placed at every visible step of every schedule within the deviation bound on the real full stack; at every quiescent point the owning task must be Paused with a reason (memory, list API, store), other tasks unchanged, nothing of the failed stream acknowledged past the failed pack, and after resume the failed message is delivered; a panic kills the worker and is attributed to the execution.",
-        note="Bounds: scripts of 3-4 packs, one failure per execution (two in the reject-two class), deviation bound 1 (2 thorough).",
+        note="Bounds: scripts of 3-4 packs, one failure per execution (two in the reject-two class), deviation bound 1 (2 thorough). Two-task layouts also run a second task's own failure after the first task's (doubly reported) failure.",
         parts=[part("failure", "server", ".", "TestVerifC06Failure", shards=(16, 16), budget=(150, 1200), gomaxprocs=1)],
     ),
 }
